@@ -312,6 +312,10 @@ Definition successes (failed : list bool) : list nat := filter (succeeded failed
 Definition rank (values : list Q) (failed : list bool) (r : nat) : nat :=
   length (filter (fun s => precedes values s r) (successes failed)).
 
+(* the sort filter [first, last] selects realization r *)
+Definition selected (values : list Q) (failed : list bool) (first last r : nat) : bool :=
+  succeeded failed r && Nat.leb first (rank values failed r) && Nat.leb (rank values failed r) last.
+
 (* the CVaR staircase as a function of the rank k (n successes, percentile p) *)
 Definition stair_m (p : Q) (n : nat) : nat := Z.to_nat (qfloor (p * nq n)).
 Definition stair (p : Q) (n k : nat) : Q :=
